@@ -82,6 +82,7 @@ mod verif_kani {
             },
             files: Vec::new(),
             allow_hidden: kani::any(),
+            #[cfg(feature = "editorconfig")]
             no_editorconfig: kani::any(),
             respect_ignores: kani::any(),
         };
